@@ -174,6 +174,10 @@ def handleCall (inp impl : Json) : R OpResult := do
   let streak := if waiting then 0 else streak0
   -- the hypotheses of `doTRX_converges`: the stable Service exists and the revisions are known
   let healthy := n.stableExists && (c.noGen || (c.stableRev != "" && c.canaryRev != ""))
+  -- `doTRX_converges`: settled within (the provider's bound) + 1 further rounds; the bounds of the members add up
+  -- (`gateway_lawful` 1, `ingress_lawful` 2, `custom_lawful` 1, `composite_pair_lawful`)
+  let provBound := (if pin.custom then 1 else 0) + (match pin.ingress with | some _ => 2 | none => 0) +
+    (if pin.gateway then 1 else 0)
   let prevDone ← (match jopt trace "prevDone" with | none => pure false | some v => jbool v)
   let pristine ← (match jopt trace "pristine" with | none => pure false | some v => jbool v)
   let s := c.strategy
@@ -184,7 +188,8 @@ def handleCall (inp impl : Json) : R OpResult := do
   let stableBare ← (match jopt (← jget inp "net") "stableBare" with | none => pure false | some v => jbool v)
   let gBare := stableBare && call == "doTrafficRouting" && c.hasRef && isStep stratOps s && n.stableExists &&
     n.stableSel.isNone && n.canarySvc.isNone && !c.noGen && c.stableRev != "" && c.canaryRev != "" &&
-    !(c.lastUpdate == .fresh && decide (c.doGrace > 0)) && !b.armed
+    !(c.lastUpdate == .fresh && decide (c.doGrace > 0)) &&
+    (match b.r with | some 1 => false | some 2 => false | _ => true)   -- no read fault before the canary Service is created
   -- known-finding region `sameServiceGateway`: no canary Service of its own (the providers get the stable name
   -- twice) together with a Gateway API ref.  There the Gateway member is judged by `C05.x_finalise_restores`
   -- alone; the other oracles judge the remaining members.
@@ -267,9 +272,9 @@ def handleCall (inp impl : Json) : R OpResult := do
       holds := holds ++ [("C03.x_done_means_routed", doneMeansRoutedX c step sp io),
                          ("C03.x_services_before_routes", servicesBeforeRoutesX c n io && (providerTouched io.writes || sameG kinds io.net n)),
                          ("C04.x_services_before_routes", servicesBeforeRoutesX c n io && (providerTouched io.writes || sameG kinds io.net n)),
-                         ("C07.x_fixed_point", fixedPointX (prevDone && b.w.isNone && !b.armed) same m io),
-                         ("C07.x_converges", convergesX (if healthy then streak else 0) 6 io)]
-      if !p.custom then holds := holds ++ [("C07.x_done_no_write", doneNoWriteX same m io)]
+                         ("C07.x_fixed_point", fixedPointX (prevDone && b.w.isNone && !b.armed && !gSame) same m io),
+                         ("C07.x_converges", convergesX (if healthy then streak else 0) (provBound + 1) io)]
+      if !p.custom && !gSame then holds := holds ++ [("C07.x_done_no_write", doneNoWriteX same m io)]
       if io.done && c.hasRef && step then
         holds := holds ++ specs s
         tags := tags ++ ["done:routed"]
@@ -293,8 +298,8 @@ def handleCall (inp impl : Json) : R OpResult := do
     if call == "finalisingTrafficRouting" then
       holds := holds ++ [("C04.x_finalising_order", finalisingOrderX c clean io),
                          ("C05.x_finalising_order", finalisingOrderX c clean io),
-                         ("C07.x_fixed_point", fixedPointX (prevDone && b.w.isNone && !b.armed) same m io),
-                         ("C07.x_converges", convergesX streak 10 io)]
+                         ("C07.x_fixed_point", fixedPointX (prevDone && b.w.isNone && !b.armed && !gSame) same m io),
+                         ("C07.x_converges", convergesX streak 9 io)]
     if call == "finalisingTrafficRouting" || call == "restoreGateway" then
       let complete := c.hasRef && !io.err && (if call == "restoreGateway" then !io.done else io.done)
       if complete then
